@@ -640,4 +640,51 @@ theorem DecodeBytes_refines (fuel : Nat) (hf : 11 ≤ fuel) (p : Bytes) (off mod
         | err => simp [hmm]; exact ⟨_, _, _, ⟨⟨rfl, rfl⟩, rfl⟩, by simp⟩
         | panic => exact absurd hmm (decodeVarint_ok _).1
 
+/-! ### `DecodeBool`, `More` -/
+
+/-- **`(*Decoder).DecodeBool` of the source refines `Dec.step .bool`** (any non-zero varint is `true`) -/
+theorem DecodeBool_refines (fuel : Nat) (hf : 11 ≤ fuel) (p : Bytes) (off mode ks ke : BitVec 64) (fast : Bool)
+    (hp : p.length < 2 ^ 63) (hoff : off.toNat ≤ p.length) :
+    ∃ v e s, Decoder_DecodeBool fuel p off mode ks ke = .ret (v, e) s ∧
+      s.d_p = p ∧ s.d_mode = mode ∧ s.d_keyStart = ks ∧ s.d_keyEnd = ke ∧
+      (match ((decOf p off ks ke fast).step .bool) with
+       | (d', .ok (.bool x), _) => e = .nil ∧ v = x ∧ s.d_offset.toNat = d'.off
+       | (_, .err, _) => e ≠ .nil ∧ s.d_offset = off
+       | _ => False) := by
+  unfold Decoder_DecodeBool Decoder_DecodeBool.body
+  simp only [Go.seq, Go.skip, eof_test p off hp hoff, Dec.step, withAlloc, Dec.scalar, decOf, Dec.len, sliceFrom]
+  by_cases heof : p.length ≤ off.toNat
+  · simp [heof]
+    exact ⟨_, _, ⟨rfl, rfl⟩, by simp⟩
+  · obtain ⟨v, n, e, c, hd, hcase⟩ := call_varint fuel hf (p.drop off.toNat) (drop_len p _ hp)
+    simp only [heof, decide_false, Bool.false_eq_true, if_false, hoff, if_true, hd, ge_iff_le]
+    rcases hcase with ⟨he, hm, hpos, hle⟩ | ⟨he, hm⟩
+    · subst he
+      have hn0 : ¬ n.toNat = 0 := by omega
+      have hlen : (p.drop off.toNat).length = p.length - off.toNat := by simp
+      have hsum : (off + n).toNat = off.toNat + n.toNat := add_toNat off n (by omega)
+      simp [elBool, Res.map, elVarint, nz, hm, hn0, n_zero_iff, hsum]
+      by_cases hv : v = 0#64
+      · left; exact ⟨_, _, ⟨⟨hv, rfl⟩, rfl⟩, rfl, rfl, rfl, rfl, rfl, by simp [hv], hsum⟩
+      · right
+        have hvn : ¬ v.toNat = 0 := fun h0 => hv (BitVec.eq_of_toNat_eq (by simpa using h0))
+        exact ⟨_, _, ⟨⟨hv, rfl⟩, rfl⟩, rfl, rfl, rfl, rfl, rfl, hvn, hsum⟩
+    · cases e with
+      | nil => exact absurd rfl he
+      | invalidVarint | unexpectedEOF | overflow | other w =>
+        cases hmm : decodeVarint (p.drop off.toNat) with
+        | ok r => exact absurd hmm (hm r)
+        | err => simp [elBool, Res.map, elVarint, nz, hmm]; exact ⟨_, _, ⟨rfl, rfl⟩, by simp⟩
+        | panic => exact absurd hmm (decodeVarint_ok _).1
+
+/-- `More()` is `offset < len(p)` and changes nothing -/
+theorem More_refines (fuel : Nat) (p : Bytes) (off mode ks ke : BitVec 64) (hp : p.length < 2 ^ 63) (hoff : off.toNat ≤ p.length) :
+    Decoder_More fuel p off mode ks ke =
+      .ret (decide (off.toNat < p.length)) { d_p := p, d_offset := off, d_mode := mode, d_keyStart := ks, d_keyEnd := ke } := by
+  have h : BitVec.slt off (BitVec.ofNat 64 p.length) = decide (off.toNat < p.length) := by
+    conv => lhs; rw [off_eq off]
+    exact slt_ofNat off.toNat p.length (by omega) hp
+  unfold Decoder_More Decoder_More.body
+  simp [Go.seq, h]
+
 end Csproto.Bridge.DecoderFuncs
